@@ -95,6 +95,11 @@ def _strategy(draw):
         opts["grid"] = draw(st.permutations(lattice))[:npts]
     if draw(st.booleans()):
         opts["nrewind"] = draw(st.integers(1, 5))
+    if box[0] == box[1] == box[2] and draw(st.integers(0, 3)) == 0:
+        # the same cubic box requested through the density instead of -box
+        opts["density"] = gc.total_mass(spec) * 1.660541 / box[0] ** 3
+        opts["box"] = None
+        opts["density_box"] = box
     spec["opts"] = opts
     return spec
 
@@ -141,9 +146,19 @@ def check(spec, ctx):
         stats["sizes"].add(round(my_size, 6))
         if start:
             stats["starts"] += 1
-            grid = res.build_system.box_grid
-            if not np.any(np.all(np.abs(np.asarray(grid) - point) < 1e-12, axis=1)):
-                raise Violation("start_not_on_grid", f"first residue ({mol_idx},{node}) at {point} is not a grid point")
+            if opts.get("grid"):
+                # the user's own start points
+                user = np.asarray(opts["grid"], dtype=float)
+                if not np.any(np.all(np.abs(user - point) < 1e-9, axis=1)):
+                    raise Violation("start_not_on_user_grid", f"first residue ({mol_idx},{node}) at {point} is not one of the "
+                                                              f"{len(user)} supplied grid points")
+            else:
+                # the default start grid: multiples of the grid spacing inside the box
+                gs = opts.get("grid_spacing", 0.2)
+                k = np.round(point / gs)
+                if np.any(np.abs(point - k * gs) > 1e-9) or np.any(point < 0) or np.any(point >= box):
+                    raise Violation("start_not_on_grid", f"first residue ({mol_idx},{node}) at {point} is not a point of the "
+                                                         f"{gs} nm lattice in the box {box}")
         else:
             ok = False
             seen = []
